@@ -106,14 +106,31 @@ DeadGames ==
 (* object} x {prune, no prune} on stopping games.                           *)
 Scripts == UNION {[1..k -> [obj : {"A", "new"}, prune : BOOLEAN]] : k \in 1..3}
 
+\* a distribution whose float probabilities do not add up to exactly 1.0 (0.69 + 0.3 + 0.01)
+OddSum ==
+    [n |-> 5, owner |-> <<PR, PR, P1, PR, PR>>, reward |-> <<1, 2, 0, 0, 0>>,
+     tr |-> << <<Tr("", 69, 2), Tr("", 30, 3), Tr("", 1, 4)>>, <<Tr("", 7, 5), Tr("", 2, 4), Tr("", 1, 5)>>,
+               <<Tr("a", 0, 5), Tr("b", 0, 4)>>, <<Tr("", 1, 4)>>, <<Tr("", 1, 5)>> >>, final |-> <<5>>]
+\* the initial state cannot reach the final state (pruned: no solution; unpruned: solved)
+NoWay ==
+    [n |-> 4, owner |-> <<P2, PR, PR, PR>>, reward |-> <<1, 1, 0, 0>>,
+     tr |-> << <<Tr("a", 0, 2), Tr("b", 0, 3)>>, <<Tr("", 1, 3), Tr("", 1, 4)>>, <<Tr("", 1, 3)>>, <<Tr("", 1, 4)>> >>,
+     final |-> <<4>>]
+
 HistBase(i) ==
-    IF i % 3 = 0 THEN RandomElement(DeadGames) ELSE StopGame(SizeOf(i))
+    IF i % 3 = 0 THEN RandomElement(DeadGames)
+    ELSE IF i % 11 = 1 THEN OddSum ELSE IF i % 11 = 2 THEN NoWay ELSE StopGame(SizeOf(i))
 HistFamilyRaw ==
     [i \in 1..K |-> LET g == TLCEval(HistBase(i))
                     IN  TLCEval([fam |-> "hist", g |-> g, stopping |-> IsStopping(g),
                                  acyclic |-> AcyclicOn(g, States(g)),
                                  calls |-> RandomElement(Scripts)])]
-HistFamily == SelectSeq(HistFamilyRaw, LAMBDA d : d.stopping)
+\* every script of length 2 on the two fixed games (object reuse across modes, both orders)
+HistFixed ==
+    LET ss == SetToSeq({q \in Scripts : Len(q) = 2})
+        mk(g, q) == [fam |-> "hist", g |-> g, stopping |-> TRUE, acyclic |-> TRUE, calls |-> q]
+    IN  [i \in 1..(2 * Len(ss)) |-> IF i <= Len(ss) THEN mk(NoWay, ss[i]) ELSE mk(OddSum, ss[i - Len(ss)])]
+HistFamily == SelectSeq(HistFamilyRaw, LAMBDA d : d.stopping) \o HistFixed
 
 \* the caller EDITS its description between calls (same Python objects, new content):
 \* g2 is g with one transition redirected; calls before and after the edit
@@ -215,6 +232,47 @@ NonAbsGames ==
             o1 \in {P1, P2, PR}, o2 \in {P1, P2, PR},
             acts \in { <<7, 3>>, <<3, 7>>, <<3, 4>>, <<4, 3, 7>>, <<7, 4>>, <<3, 5>>, <<5, 3, 4>> },
             fin \in { <<2, 7>>, <<7, 2>>, <<2>>, <<2, 7, 2>> }, r2 \in {0, 3} }
+
+(* Slow: a probabilistic state that leaves its self loop with probability  *)
+(* 1/W only: value iteration needs tens of thousands of sweeps.             *)
+(*   1 chooser, 2 slow, 3 alternative (PR -> win / lose), 4 lose, 5 win     *)
+SlowGames ==
+    LET mk(o, W, exits, alt, r) ==
+          [n |-> 5,
+           owner  |-> <<o, PR, PR, PR, PR>>,
+           reward |-> <<0, r, 1, 0, 0>>,
+           tr |-> << IF o = PR THEN <<Tr("", 1, 2), Tr("", 1, 3)>> ELSE <<Tr("a", 0, 2), Tr("b", 0, 3)>>,
+                     <<Tr("", W - Len(exits), 2)>> \o [j \in DOMAIN exits |-> Tr("", 1, exits[j])],
+                     alt,
+                     <<Tr("", 1, 4)>>, <<Tr("", 1, 5)>> >>,
+           final |-> <<5>>]
+    IN  { mk(o, W, exits, alt, r) :
+            o \in {P1, P2, PR}, W \in {2000, 10000}, exits \in {<<5>>, <<5, 4>>, <<4, 5, 5>>},
+            alt \in {<<Tr("", 1, 5), Tr("", 1, 4)>>, <<Tr("", 2, 5), Tr("", 1, 4)>>, <<Tr("", 1, 5)>>},
+            r \in {0, 1} }
+
+(* Diag: nested player states whose reachability-optimal and reward-optimal  *)
+(* choices differ, behind a chooser whose successors tie in reachability:    *)
+(* the situations in which the two diagnostic vectors (C14) differ from the  *)
+(* plain rewards and probabilities.                                          *)
+(*   1 chooser -> 2, 3 ; 2 -> 4, 5 ; 3 -> 6, 5 ; 4, 5, 6 chance states with  *)
+(*   their own reward and chance of winning ; 7 lose ; 8 win                 *)
+DiagGames ==
+    LET half == <<Tr("", 1, 8), Tr("", 1, 7)>>
+        most == <<Tr("", 9, 8), Tr("", 1, 7)>>
+        mk(o1, o2, o3, p4, p6, r) ==
+          [n |-> 8,
+           owner  |-> <<o1, o2, o3, PR, PR, PR, PR, PR>>,
+           reward |-> <<0, r[1], r[2], r[3], r[4], r[5], 0, 0>>,
+           tr |-> << <<Tr("x", 0, 2), Tr("y", 0, 3)>>,
+                     <<Tr("c", 0, 4), Tr("d", 0, 5)>>,
+                     <<Tr("c", 0, 6), Tr("d", 0, 5)>>,
+                     p4, half, p6,
+                     <<Tr("", 1, 7)>>, <<Tr("", 1, 8)>> >>,
+           final |-> <<8>>]
+    IN  { mk(o1, o2, o3, p4, p6, r) :
+            o1 \in {P1, P2}, o2 \in {P1, P2}, o3 \in {P1, P2}, p4 \in {half, most}, p6 \in {half, most},
+            r \in { <<0, 0, 1, 6, 1>>, <<1, 0, 6, 1, 3>>, <<0, 2, 1, 3, 7>>, <<2, 1, 4, 2, 1>>, <<0, 0, 5, 1, 9>> } }
 
 (* BigRew: rewards in the millions whose relative difference is tiny but    *)
 (* whose absolute difference is far above the tolerance.                    *)
